@@ -65,6 +65,12 @@ Definition n_le (a : num) (z : Z) : bool := match a with Some v => v <=? z | Non
 (* total_bounds_interleaved(flat_values[start:stop]) on finite coordinates *)
 Definition zbounds (seg : list Z) : bbox := total_bounds_interleaved (map Some seg).
 
+(* np.isnan(bounds[0]) and np.isnan(bounds[1]): no finite coordinate at all
+   ("fix:" commit df4dba3) *)
+Definition bounds_nan (bnd : bbox) : bool :=
+  let '(b0, b1, _, _) := bnd in
+  match b0, b1 with None, None => true | _, _ => false end.
+
 (* bounds outside of rect *)
 Definition bounds_reject (bnd : bbox) (x0 y0 x1 y1 : Z) : bool :=
   let '(b0, b1, b2, b3) := bnd in
@@ -103,7 +109,8 @@ Definition multipoints_intersect_bounds (b : box) (vals : list Z)
 Definition perform_line (x0 y0 x1 y1 : Z) (vals : list Z) (start stop : nat) : bool :=
   let seg := slice start stop vals in
   let bnd := zbounds seg in
-  if bounds_reject bnd x0 y0 x1 y1 then false
+  if bounds_nan bnd then false
+  else if bounds_reject bnd x0 y0 x1 y1 then false
   else if bounds_shortcut bnd x0 y0 x1 y1 then true
   else if existsb (in_rect x0 y0 x1 y1) (zpairs seg) then true
   else existsb (edge_hits_rect x0 y0 x1 y1) (edges (zpairs seg)).
@@ -135,7 +142,8 @@ Definition perform_polygon (x0 y0 x1 y1 : Z) (vals : list Z) (offsets1 : list na
   let stop1 := getn offsets1 stop0 in
   let seg := slice start1 stop1 vals in
   let bnd := zbounds seg in
-  if bounds_reject bnd x0 y0 x1 y1 then false
+  if bounds_nan bnd then false
+  else if bounds_reject bnd x0 y0 x1 y1 then false
   else if bounds_shortcut bnd x0 y0 x1 y1 then true
   else if existsb (in_rect x0 y0 x1 y1) (zpairs seg) then true
   else
@@ -424,3 +432,8 @@ Definition run_scalar_packed (f : nat -> listarr -> box -> option bool)
 
 Definition run_point_scalar_packed (c : (num * num) * list box) : option Z :=
   pack_opts (run_point_scalar c).
+
+(* whole-array form only *)
+Definition run_array1_packed {A} (f : A -> box -> option (list nat) -> option (list bool))
+           (c : A * list box) : list (option Z) :=
+  let '(a, boxes) := c in map (fun b => option_map pack_bits (f a b None)) boxes.
